@@ -7,9 +7,14 @@
 // A harness installs a callback with Set; binaries can be given delays through
 // the environment: VERIF_HOOKS="name=sleep:5ms;other=sleep:1ms:25%" (the
 // optional last field is the probability that the delay is applied).
+// VERIF_HOOKS_LOG=<file> makes every hit append one line
+// "<unix nanoseconds> <name> <first argument>" to that file, so that a harness
+// driving a binary from outside can see which points were reached for which
+// session.
 package verifhook
 
 import (
+	"fmt"
 	"math/rand"
 	"os"
 	"strconv"
@@ -32,6 +37,9 @@ type entry struct {
 var (
 	mu      sync.RWMutex
 	entries = map[string]*entry{}
+
+	logMu   sync.Mutex
+	logFile *os.File
 )
 
 func get(name string, create bool) *entry {
@@ -57,6 +65,15 @@ type holder struct{ f func(args ...interface{}) }
 func Point(name string, args ...interface{}) {
 	e := get(name, true)
 	atomic.AddInt64(&e.hits, 1)
+	if logFile != nil {
+		var a interface{} = ""
+		if len(args) > 0 {
+			a = args[0]
+		}
+		logMu.Lock()
+		fmt.Fprintf(logFile, "%d %s %v\n", time.Now().UnixNano(), name, a)
+		logMu.Unlock()
+	}
 	if d := atomic.LoadInt64(&e.sleep); d > 0 {
 		if p := atomic.LoadInt64(&e.prob); p >= 1000000 || rand.Int63n(1000000) < p {
 			time.Sleep(time.Duration(d))
@@ -99,6 +116,11 @@ func AllHits() map[string]int64 {
 }
 
 func init() {
+	if p := os.Getenv("VERIF_HOOKS_LOG"); p != "" {
+		if f, err := os.OpenFile(p, os.O_CREATE|os.O_WRONLY|os.O_APPEND, 0600); err == nil {
+			logFile = f
+		}
+	}
 	for _, item := range strings.Split(os.Getenv("VERIF_HOOKS"), ";") {
 		kv := strings.SplitN(strings.TrimSpace(item), "=", 2)
 		if len(kv) != 2 {
